@@ -430,17 +430,25 @@ fn history_strategy() -> impl Strategy<Value = History> {
     ];
     (
         0usize..=3,
-        (Just("T0".to_string()), Just("T1".to_string()), Just("T2".to_string()), token.clone(), token).prop_map(|(a, b, c, d, e)| {
-            let mut v = vec![a, b, c, d.clone(), e.clone()];
-            // tokens are distinct
-            if v[..3].contains(&d) {
-                v[3] = format!("{d}-");
-            }
-            if v[..4].contains(&e) {
-                v[4] = format!("{e}+");
-            }
-            v
-        }),
+        prop_oneof![
+            3 => (Just("T0".to_string()), Just("T1".to_string()), Just("T2".to_string()), token.clone(), token).prop_map(|(a, b, c, d, e)| {
+                let mut v = vec![a, b, c, d.clone(), e.clone()];
+                // tokens are distinct
+                if v[..3].contains(&d) {
+                    v[3] = format!("{d}-");
+                }
+                if v[..4].contains(&e) {
+                    v[4] = format!("{e}+");
+                }
+                v
+            }),
+            // long tokens that differ only behind a common prefix of 7 .. 63 characters (distinct tokens are distinct
+            // transactions, however much they have in common)
+            1 => (proptest::sample::select(vec![7usize, 15, 16, 31, 32, 33, 40, 63]), "[a-z0-9/-]{63}", any::<bool>()).prop_map(|(n, base, case)| {
+                let p = &base[..n];
+                vec![format!("{p}1"), format!("{p}2"), format!("{p}10"), if case { p.to_uppercase() + "1" } else { format!("{p}-1") }, p.to_string()]
+            }),
+        ],
         proptest::collection::vec(1u64..=9999, 1..6),
         proptest::option::weighted(0.3, 1u64..=9999),
         prop_oneof![3 => proptest::collection::vec(step.clone(), 0..10), 1 => proptest::collection::vec(step, 0..=40)],
@@ -525,6 +533,9 @@ pub fn run(prop: &'static str, tier: Tier) -> i32 {
             let (exp, _) = walk(h);
             st.case(nontrivial(&exp, h.steps.len()), fnv(&serde_json::to_vec(h).unwrap()));
             st.class(if h.steps.len() > 10 { "walk:len>10" } else { "walk:len<=10" });
+            if h.tokens.iter().all(|t| t.len() >= 7) && h.tokens[0][..7] == h.tokens[1][..7] {
+                st.class("walk:long-tokens-with-a-common-prefix");
+            }
             if let Some(p) = exp.iter().position(|c| matches!(c.op, Op::Configure)) {
                 if exp[..p].iter().any(|c| c.accepted && matches!(c.op, Op::Begin(_))) {
                     st.class("walk:configure-refused-after-a-begin");
@@ -543,7 +554,7 @@ pub fn run(prop: &'static str, tier: Tier) -> i32 {
     stats.exhaustive_parts = vec![format!("all begin/commit/cancel histories over 3 tokens x max 0..3: every terminal outcome combination up to length {d_out}, success-only up to length {d_succ}; each followed by a drain (cancel of every token)")];
     let (rule, assume): (&str, Vec<&str>) = if prop == "C07" {
         (
-            "real Feig client vs simulated terminal (paused time) stepped alongside a reference ClientModel {open: token -> receipt, max}. Histories: bounded-exhaustive over 3 tokens x max 0..3 x terminal outcomes {success with generated (possibly repeated) receipt, abort, no receipt; completion, abort}, then proptest walks to length 40 over 5 tokens (two arbitrary CP437 strings). After every call: result class, traffic (refused: zero bytes and no connection; accepted begin: exactly one Reservation; commit/cancel: first request carries that token's receipt); at the end a drain cancels every token of the alphabet. non-trivial = history with a refused call and an accepted commit/cancel; distinct by (config, history, outcomes)",
+            "real Feig client vs simulated terminal (paused time) stepped alongside a reference ClientModel {open: token -> receipt, max}. Histories: bounded-exhaustive over 3 tokens x max 0..3 x terminal outcomes {success with generated (possibly repeated) receipt, abort, no receipt; completion, abort}, then proptest walks to length 40 over 5 tokens (two arbitrary CP437 strings, or five long tokens that differ only behind a common prefix of 7..63 characters). After every call: result class, traffic (refused: zero bytes and no connection; accepted begin: exactly one Reservation; commit/cancel: first request carries that token's receipt); at the end a drain cancels every token of the alphabet. non-trivial = history with a refused call and an accepted commit/cancel; distinct by (config, history, outcomes)",
             vec!["requests are decoded by the reference codec, never by the repo's", "fault-free transport; faults are C09/C10"],
         )
     } else {
